@@ -1,16 +1,251 @@
 /-
-C19 — the C++ linter is silent on conforming code and flags every seeded violation (partial).
+C19 — the C++ linter is silent on conforming code and flags every seeded violation.
+
+PARTIAL by design (DESIGN.md C19).  Proved here, over `Model/Lint/{Regex,LineRules}.lean`:
+  * the regex engine against its declarative semantics on the fragment without group/back-reference
+    (`m_iff_matches`, `fullMatch_iff`, `search_iff_lang`), and `search_context`: a string matching an
+    anchor-free pattern fires the rule wherever it is inserted;
+  * kernel-checked witnesses for every pattern of validation.py, re-read on every run
+    (`typo_witnesses`, `validator_witnesses`), hence `typo_seeded_anywhere`;
+  * seeded-edit and undo theorems for the modelled line rules; `exit_is_count`.
+NOT modelled (covered by seeded edits on the implementation in harness/c19.py only): the token-level
+parsers (namespace versus path, forward declarations), MultiConditionChecker, SingleLineValidator,
+strip_comments_and_strings, include order / first include (C20 models the comparison), DepsChecker.
+A defect of the code as written is proved on the model and shown on the implementation:
+`pragma_empty_line_rule_is_dead`.
 -/
-import SymbolVerif.Model.Lint.Regex
-import SymbolVerif.Model.Lint.LineRules
+import SymbolVerif.Proofs.RegexLemmas
+import SymbolVerif.Proofs.LineRulesLemmas
 import SymbolVerif.Generated.LintTables
 namespace SymbolVerif.C19
 open SymbolVerif.Lint.Regex SymbolVerif.Lint.Rules
 
-/-- every entry of the typo list (re-read from validation.py on every run) has a witness -/
+/-! ### the regex engine -/
+
+/-- the backtracking matcher decides the declarative semantics (no group / back-reference) -/
+theorem m_iff_matches (r : RE) (hn : noCapture r = true) (s : St) (k : St → Bool) :
+    m r s k = true ↔ ∃ u v, s.rest = u ++ v ∧ Matches r s.pre u v ∧ k ⟨u.reverse ++ s.pre, v, s.cap⟩ = true :=
+  m_iff r hn s k
+
+/-- `re.fullmatch` -/
+theorem fullMatch_iff (r : RE) (hn : noCapture r = true) (w : List Char) :
+    fullMatch r w = true ↔ Matches r [] w [] := by
+  unfold fullMatch
+  rw [m_iff r hn]
+  constructor
+  · rintro ⟨u, v, hs, hm, hk⟩
+    have hv : v = [] := by simpa using hk
+    subst hv
+    simp only [List.append_nil] at hs
+    subst hs
+    exact hm
+  · intro hm
+    exact ⟨w, [], by simp, hm, rfl⟩
+
+/-- `re.search`: some substring matches, in its context -/
+theorem search_iff_lang (r : RE) (hn : noCapture r = true) (line : List Char) :
+    search r line = true ↔ ∃ x y z, line = x ++ y ++ z ∧ Matches r x.reverse y z := by
+  unfold search
+  rw [searchGo_iff r hn line []]
+  simp
+
+/-- a string that matches an anchor-free pattern is found in ANY line that contains it, at any
+    position: inserting the witness anywhere fires the rule -/
+theorem search_context (r : RE) (ha : anchorFree r = true) (w : List Char) (hw : fullMatch r w = true)
+    (pre post : List Char) : search r (pre ++ w ++ post) = true := by
+  have hn := anchorFree_noCapture r ha
+  rw [search_iff_lang r hn]
+  exact ⟨pre, w, post, rfl, matches_context ((fullMatch_iff r hn w).mp hw) ha _ _⟩
+
+/-! ### the tables of validation.py (re-read on every run) -/
+
+/-- every entry of the typo list has a witness -/
 theorem typo_witnesses : ∀ p ∈ Generated.Lint.typoTable, fullMatch p.1 p.2 = true := by decide +kernel
 
 /-- ... and so has every other compiled pattern of validation.py -/
 theorem validator_witnesses : ∀ p ∈ Generated.Lint.validatorTable, fullMatch p.1 p.2 = true := by decide +kernel
+
+/-- typo family, every applicable line of every file: for an anchor-free entry of the typo list, the
+    file obtained by inserting its witness at any position of any line gets a `nameTypo` report for that
+    entry at that line -/
+theorem typo_seeded_anywhere (table : List RE) (idx : Nat) (r : RE) (w : List Char)
+    (hr : table[idx]? = some r) (ha : anchorFree r = true) (hw : fullMatch r w = true)
+    (lines : List Str) (i : Nat) (pre post : List Char) (hi : lines[i]? = some (pre ++ post)) :
+    ⟨.typo idx, i + 1⟩ ∈ run (typos table) (lines.set i (pre ++ w ++ post)) := by
+  have hlt : i < lines.length := by
+    cases h : lines[i]? with
+    | none => rw [h] at hi; cases hi
+    | some _ => exact (List.getElem?_eq_some_iff.mp h).1
+  show _ ∈ runFrom (perLine (typoLine table)) () 1 _
+  rw [mem_run_perLine]
+  refine ⟨i, pre ++ w ++ post, by simp [hlt], ?_⟩
+  have hs := search_context r ha w hw pre post
+  simp only [typoLine, List.mem_map, List.mem_filter]
+  refine ⟨(r, idx), ⟨?_, hs⟩, by simp [Nat.add_comm]⟩
+  rw [List.mem_iff_getElem?]
+  exact ⟨idx, by simp [List.getElem?_zipIdx, hr]⟩
+
+/-! ### seeded edits on the modelled line rules -/
+
+/-- replacing line `i` and putting the old line back gives the original file -/
+theorem undo_replace (lines : List Str) (i : Nat) (l l' : Str) (h : lines[i]? = some l) :
+    (lines.set i l').set i l = lines := by
+  rw [List.set_set]
+  apply List.ext_getElem?
+  intro j
+  by_cases hj : i = j
+  · subst hj
+    have hlt := (List.getElem?_eq_some_iff.mp h).1
+    rw [h]; simp [hlt]
+  · rw [List.getElem?_set_ne hj]
+
+/-- inserting a line and deleting it again gives the original file -/
+theorem undo_insert (lines : List Str) (i : Nat) (l : Str) :
+    (lines.insertIdx i l).eraseIdx i = lines := by simp
+
+private theorem set_get (lines : List Str) (i : Nat) (l l' : Str) (h : lines[i]? = some l) :
+    (lines.set i l')[i]? = some l' := by
+  have := (List.getElem?_eq_some_iff.mp h).1
+  simp [this]
+
+/-- whitespace: appending a blank to a line that has a non-blank character is reported at that line -/
+theorem seeded_trailing_whitespace (lines : List Str) (i : Nat) (l : Str) (c : Char)
+    (h : lines[i]? = some l) (hc : isSpace c = true) (hl : ∃ d ∈ l, isSpace d = false) :
+    ⟨.wsLineEnding, i + 1⟩ ∈ run whitespace (lines.set i (l ++ [c])) := by
+  refine mem_run_of_line whitespace whitespaceLine (fun _ _ _ => rfl) _ _ 1 i _ _ (set_get lines i l _ h) ?_
+  simp [whitespaceLine, wsLineEnding_append_space l c hc hl, Nat.add_comm]
+
+/-- whitespace: a space after the leading tabs is reported at that line -/
+theorem seeded_spaces_at_start (lines : List Str) (i : Nat) (k : Nat) (rest : Str)
+    (h : lines[i]? = some (List.replicate k '\t' ++ rest)) :
+    ⟨.wsSpacesStart, i + 1⟩ ∈ run whitespace (lines.set i (List.replicate k '\t' ++ ' ' :: rest)) := by
+  refine mem_run_of_line whitespace whitespaceLine (fun _ _ _ => rfl) _ _ 1 i _ _ (set_get lines i _ _ h) ?_
+  simp [whitespaceLine, wsSpacesStart_tabs_space, Nat.add_comm]
+
+/-- whitespace: an empty line turned into tabs is reported at that line -/
+theorem seeded_tabs_in_empty_line (lines : List Str) (i : Nat) (k : Nat) (hk : 0 < k) (h : lines[i]? = some []) :
+    ⟨.wsTabsEmpty, i + 1⟩ ∈ run whitespace (lines.set i (List.replicate k '\t')) := by
+  refine mem_run_of_line whitespace whitespaceLine (fun _ _ _ => rfl) _ _ 1 i _ _ (set_get lines i _ _ h) ?_
+  simp [whitespaceLine, wsTabsEmpty_replicate k hk, Nat.add_comm]
+
+/-- whitespace: a tab inserted after any non-blank character is reported at that line -/
+theorem seeded_tab_inside (lines : List Str) (i : Nat) (a b : Str) (c : Char) (hc : isSpace c = false)
+    (h : lines[i]? = some (a ++ c :: b)) :
+    ⟨.wsTabInside, i + 1⟩ ∈ run whitespace (lines.set i (a ++ c :: '\t' :: b)) := by
+  refine mem_run_of_line whitespace whitespaceLine (fun _ _ _ => rfl) _ _ 1 i _ _ (set_get lines i _ _ h) ?_
+  simp [whitespaceLine, wsTabInside_insert a b c hc, Nat.add_comm]
+
+/-- line length is reported exactly for the lines whose width (tabs count 4) reaches the limit -/
+theorem too_long_iff (limit : Nat) (lines : List Str) (n : Nat) :
+    ⟨.tooLong, n⟩ ∈ run (tooLong limit) lines ↔ ∃ i l, n = i + 1 ∧ lines[i]? = some l ∧ limit ≤ width l := by
+  unfold run
+  rw [show (tooLong limit).reset = () from rfl]
+  unfold tooLong
+  rw [mem_run_perLine]
+  constructor
+  · rintro ⟨i, l, hl, hr⟩
+    by_cases hw : limit ≤ width l
+    · simp only [hw, if_true, List.mem_singleton, Report.mk.injEq, true_and] at hr
+      exact ⟨i, l, by omega, hl, hw⟩
+    · simp [hw] at hr
+  · rintro ⟨i, l, hn, hl, hw⟩
+    exact ⟨i, l, hl, by simp [hw, hn, Nat.add_comm]⟩
+
+/-- line length, the boundary: padding a line without tabs in the padding to exactly `limit` columns
+    is reported at that line, padding it to `limit - 1` columns is not (given the other lines are short) -/
+theorem seeded_long_line (limit : Nat) (lines : List Str) (i : Nat) (l : Str) (pad : Nat)
+    (h : lines[i]? = some l) :
+    (limit ≤ width l + pad → ⟨.tooLong, i + 1⟩ ∈ run (tooLong limit) (lines.set i (l ++ List.replicate pad 'x'))) ∧
+    (width l + pad < limit → (∀ j l', j ≠ i → lines[j]? = some l' → width l' < limit) →
+      ∀ n, ⟨.tooLong, n⟩ ∉ run (tooLong limit) (lines.set i (l ++ List.replicate pad 'x'))) := by
+  have hw : width (l ++ List.replicate pad 'x') = width l + pad := by
+    rw [width_append, width_replicate pad 'x' (by decide)]
+  constructor
+  · intro hlim
+    rw [too_long_iff]
+    exact ⟨i, _, rfl, set_get lines i l _ h, by rw [hw]; exact hlim⟩
+  · intro hlim hothers n hmem
+    rw [too_long_iff] at hmem
+    obtain ⟨j, l', _, hj, hwj⟩ := hmem
+    by_cases hji : j = i
+    · subst hji
+      rw [set_get lines j l _ h] at hj
+      cases hj
+      rw [hw] at hwj; omega
+    · rw [List.getElem?_set_ne (Ne.symm hji)] at hj
+      have := hothers j l' hji hj
+      omega
+
+/-- blank lines: a blank line inserted directly after a blank line is reported at the inserted line -/
+theorem seeded_consecutive_empty (before after : List Str) (blank : Str) (hb : isBlank blank = true) :
+    ⟨.consecutiveEmpty, before.length + 2⟩ ∈ run consecutiveEmpty (before ++ blank :: [] :: after) := by
+  unfold run
+  rw [runFrom_eq, List.mem_append]
+  refine Or.inl ?_
+  rw [checkReports_append, List.mem_append]
+  refine Or.inr ?_
+  simp only [checkReports, List.mem_append]
+  refine Or.inr (Or.inl ?_)
+  have he : isBlank ([] : Str) = true := rfl
+  have hs : (stateAfter consecutiveEmpty consecutiveEmpty.reset 1 before, 1 + before.length) =
+      (stateAfter consecutiveEmpty consecutiveEmpty.reset 1 before, 1 + before.length) := rfl
+  simp only [consecutiveEmpty, he, hb, Bool.true_and, if_true, List.mem_singleton, Report.mk.injEq, true_and]
+  omega
+
+/-- blank lines: a whitespace-only (non-empty) line put before the last line is reported -/
+theorem seeded_blank_near_end (before : List Str) (ws last : Str) (hne : ws ≠ []) (hws : isBlank ws = true) :
+    ⟨.emptyNearEnd, (before ++ [ws, last]).length + 1⟩ ∈ emptyNearEnd (before ++ [ws, last]) := by
+  unfold emptyNearEnd
+  have hrev : (before ++ [ws, last]).reverse = last :: ws :: before.reverse := by simp
+  rw [hrev]
+  have : ws.isEmpty = false := by cases ws with | nil => exact absurd rfl hne | cons _ _ => rfl
+  simp [this, hws]
+
+/-! ### the empty-line rule of PragmaOnceValidator never fires -/
+
+/-- For every file, header or not: `Empty line after #pragma once` is never reported.  (The line
+    `#pragma once` itself starts with `#`, which settles `report_empty_line_error = False` before the
+    first `#include` can be looked at.)  Shown on the implementation by harness/c19.py and recorded in
+    known_findings.jsonl. -/
+theorem pragma_empty_line_rule_is_dead (isHeader : Bool) (lines : List Str) (n : Nat) :
+    ⟨.emptyAfterPragmaOnce, n⟩ ∉ run (pragmaOnce isHeader) lines := by
+  unfold run
+  rw [runFrom_eq, pragma_checkReports_nil, List.nil_append]
+  have hinit : PragmaInv (pragmaOnce isHeader).reset := by
+    cases isHeader <;> simp [pragmaOnce, PragmaInv]
+  have hinv := pragma_stateAfter_inv isHeader lines _ 1 hinit
+  generalize stateAfter (pragmaOnce isHeader) (pragmaOnce isHeader).reset 1 lines = s at hinv
+  obtain ⟨h1, _⟩ := hinv
+  intro hmem
+  simp only [pragmaOnce, List.mem_append] at hmem
+  rcases hmem with (hmem | hmem) | hmem
+  · split at hmem <;> simp at hmem
+  · split at hmem <;> simp at hmem
+  · split at hmem
+    · next hb => exact h1 (by simpa using hb)
+    · simp at hmem
+
+/-! ### exit status -/
+
+/-- the exit status is the number of reports, so it is zero exactly for a silent run -/
+theorem exit_is_count (reports : List Report) : exitStatus reports = reports.length ∧ (exitStatus reports = 0 ↔ reports = []) :=
+  ⟨rfl, by simp [exitStatus]⟩
+
+/-- ... but the operating system keeps eight bits: 256 violations look like success to the caller -/
+theorem shell_status_wraps (r : Report) : shellStatus (List.replicate 256 r) = 0 ∧ List.replicate 256 r ≠ [] := by
+  constructor
+  · simp only [shellStatus, exitStatus, List.length_replicate]
+  · intro h
+    have := congrArg List.length h
+    rw [List.length_replicate, List.length_nil] at this
+    omega
+
+/-! ### non-vacuity -/
+
+example : search (.seq (.lit 'a') (.star (.lit 'b'))) "xxabbby".toList = true := by decide +kernel
+example : Generated.Lint.typoTable.length > 100 := by decide +kernel
+example : wsLineEnding "int x; ".toList = true ∧ wsLineEnding "int x;".toList = false := by decide +kernel
+example : (run region ["// region a".toList, "// region b".toList, "// endregion".toList]).map (·.rule) = [.regionUnclosed] := by
+  decide +kernel
 
 end SymbolVerif.C19
